@@ -479,3 +479,52 @@ for _nw, _we in ((1, False), (1, True), (2, True)):
     _site_contract(_AF + '_process_case', {'self': make_aligned, 'tlist': make_case_shape(_nw, _we)}, case=_case,
                    serves=('C06', 'C07'))
     CASE_LAYOUT_CASES.append((_AF + '_process_case', _case))
+
+
+# --------------------------------------------------------------------------------- further layout routines (C06)
+
+_site_contract(_AF + '_process_statement', {'self': make_aligned, 'tlist': make_group})
+
+
+def make_idlist_shape(n):
+    """IdentifierList [item] (, ws item){n-1} with explicit children (items: nodes of the argument classes or literals)"""
+    def mk(ex, st):
+        from contracts.sql import _mk_argument, _mk_leaf, _mk_node
+        T = ex.W.T
+        items = []
+        args = []
+        for i in range(n):
+            a = _mk_argument(ex, st, 'item%d' % i)
+            args.append(a)
+            if i:
+                items += [_mk_leaf(ex, st, None, 'comma%d' % i, (T.Punctuation,), value=','), ('ws', 'ws%d' % i, 'single')]
+            items.append(a)
+        st.ghost['ITEMS'] = tuple(args)
+        return _mk_node(ex, st, ex.W.sql.IdentifierList, 'tlist', items)
+    return mk
+
+
+_site_contract(_AF + '_process_identifierlist', {'self': make_aligned, 'tlist': make_idlist_shape(3)},
+               case='shape: 3 items')
+MORE_LAYOUT_CASES = [(_AF + '_process_statement', 'sites'),
+                     (_AF + '_process_identifierlist', 'shape: 3 items')]
+
+
+class _PureBoolQuery:
+    """call-site model of a read-only predicate on the tree (within, has_ancestor ...: verified separately against the
+    ancestry chain): an unknown boolean, no effect"""
+
+    @staticmethod
+    def model(ex, self_val, args, kw, st):
+        return [(st, SBool(fresh('query', z3.BoolSort())))]
+
+
+for _q in ('sqlparse.sql.Token.within', 'sqlparse.sql.Token.has_ancestor'):
+    REG[_q] = _PureBoolQuery
+
+_site_contract(_RF + '_process_identifierlist', {'self': make_reindent, 'tlist': make_idlist_shape(2)},
+               case='shape: 2 items', raises=[])
+_site_contract(_RF + '_process_identifierlist', {'self': make_reindent, 'tlist': make_idlist_shape(3)},
+               case='shape: 3 items', raises=[], tier='thorough')
+MORE_LAYOUT_CASES.append((_RF + '_process_identifierlist', 'shape: 2 items'))
+MORE_LAYOUT_CASES.append((_RF + '_process_identifierlist', 'shape: 3 items'))
